@@ -879,7 +879,8 @@ func streamURL(g *G) { // C10
 	}
 }
 
-var corsOrigins = [][]string{nil, {"https://a.example"}, {"https://a.example", "https://b.example"}, {"*"}, {"https://a.example", "*"}}
+var corsOrigins = [][]string{nil, {"https://a.example"}, {"https://a.example", "https://b.example"}, {"*"}, {"https://a.example", "*"},
+	{"https://a.example", "https://b.example", "https://c.example", "https://d.example", "https://e.example", "https://f.example", "https://g.example", "https://h.example", "https://i.example", "https://j.example"}}
 var corsAllowH = [][]string{nil, {"Content-Type"}, {"Content-Type", "X-Token"}, {"*"}, {"x-lower"}, {"Content-Type", "X-UID", "X-Ua"}, {"authorization", "X-Token", "Accept"}, {"X-b", "X-B1", "x-a", "X-C"}, {"Zeta", "alpha", "Beta", "gamma", "Delta"}}
 var corsExposed = [][]string{nil, {"X-A"}, {"X-A", "X-B"}, {"*"}, {"X-Total-Count", "*", "ETag"}, {"*", "X-A"}, {"x-lower", "X-UPPER"}}
 
@@ -1263,13 +1264,17 @@ func streamFault(g *G) { // C16
 		g.emit("group-use %d 5", gid)
 		for i := 0; i < 14; i++ {
 			hs, ms, bs := map[int]int{}, map[int]int{}, map[int]int{}
+			pv := 1 + g.intn(5)
+			if g.chance(0.25) {
+				pv = []int{99, 98, 97}[g.intn(3)] // http.ErrAbortHandler, an error wrapping it, a plain string
+			}
 			switch g.intn(5) {
 			case 0:
-				hs[1+g.intn(3)] = 1 + g.intn(5)
+				hs[1+g.intn(3)] = pv
 			case 1:
-				ms[1+g.intn(5)] = 1 + g.intn(5)
+				ms[1+g.intn(5)] = pv
 			case 2:
-				bs[[]int{1, 2, 3, 4, 7}[g.intn(5)]] = 1 + g.intn(5)
+				bs[[]int{1, 2, 3, 4, 7}[g.intn(5)]] = pv
 			}
 			g.emit("panic-cfg %s %s %s", encIntMap(hs), encIntMap(ms), encIntMap(bs))
 			for j := 0; j < 3; j++ {
@@ -1646,6 +1651,18 @@ func streamIsolation(g *G) { // C07: decoys interleaved with an observed instanc
 		}
 		g.routerLine(rid, routerOpt{name: "obs", trace: g.chance(0.5)})
 		g.serveLine("serve", rid, "OPTIONS", "*", "", nil)
+		// per-request state (HEAD wrapper, contexts) must not travel between instances: a decoy serves HEAD with a body,
+		// the observed router then answers HEAD with an explicit status
+		g.emit("script 71 w:201;b:7")
+		g.emit("script 72 b:5")
+		g.emit("handle %d /created 71 %%- %s", rid, encL([]string{"GET"}))
+		dd := 1000 + g.intn(3)
+		g.routerLine(dd, routerOpt{name: "decoy"})
+		g.emit("handle %d /page 72 %%- %s", dd, encL([]string{"GET"}))
+		g.serveLine("serve", dd, "HEAD", "/page", "", nil)
+		g.serveLine("serve", rid, "HEAD", "/created", "", nil)
+		g.serveLine("serve", dd, "GET", "/page", "", nil)
+		g.serveLine("serve", rid, "GET", "/created", "", nil)
 		var isoPool []string
 		for s := 0; s < 10; s++ {
 			if g.chance(0.7) {
